@@ -377,20 +377,24 @@ def profiles(tier, seed, light=False):
         P.append(dict({**base, **tiny}, W=2, D=2, H=5, ntables=4, maxdepth=3, whos=["A"]))
         P.append(dict({**base, **tiny}, W=2, D=1, H=3, ntables=3, maxdepth=3, amts=[2, 4]))
     else:
-        P.append(dict(base, W=2, D=2, H=3, ntables=0, exhaustive=True, keys=["a", "b"], maxdepth=5))
-        for (W, D, H, n) in [(1, 1, 2, 3), (2, 2, 5, 30), (3, 2, 7, 30), (3, 3, 7, 20), (5, 4, 11, 12), (2, 1, 5, 10), (1, 3, 2, 4)]:
-            P.append(dict(base, W=W, D=D, H=H, ntables=n, maxdepth=4))
+        solo = dict(base, whos=["A"], maxdepth=5, maxtrue=3)
+        P.append(dict(solo, W=2, D=2, H=3, ntables=0, exhaustive=True, keys=["a", "b"], maxdepth=4))          # every table of the smallest geometry
+        for (W, D, H, n) in [(1, 1, 2, 2), (2, 2, 5, 14), (3, 2, 7, 12), (3, 3, 7, 8), (5, 4, 11, 6), (2, 1, 5, 6), (1, 3, 2, 3)]:
+            P.append(dict(solo, W=W, D=D, H=H, ntables=n))
+        for (W, D, H, n) in [(2, 2, 5, 4), (3, 2, 7, 3), (2, 1, 3, 2)]:                                          # pairs: join
+            P.append(dict(base, W=W, D=D, H=H, ntables=n, maxdepth=4, maxtrue=2))
         for mode in ("mean", "meanmin"):
-            for (W, D, H, n) in [(2, 2, 5, 15), (3, 3, 7, 10), (2, 3, 5, 10)]:
-                P.append(dict(base, W=W, D=D, H=H, ntables=n, mode=mode, maxdepth=4))
+            for (W, D, H, n) in [(2, 2, 5, 6), (3, 3, 7, 5), (2, 3, 5, 5)]:
+                P.append(dict(solo, W=W, D=D, H=H, ntables=n, mode=mode, maxdepth=4))
         for nh in (1, 2, 3):
-            P.append(dict(base, W=2, D=2, H=5, ntables=25, kind="hh", nh=nh, whos=["A"], keys=["a", "b", "c", "d"], maxdepth=6, maxtrue=5))
-        P.append(dict(base, W=1, D=2, H=2, ntables=2, kind="hh", nh=2, whos=["A"], keys=["a", "b", "c", "d"], maxdepth=6, maxtrue=5))
+            P.append(dict(base, W=2, D=2, H=5, ntables=5, kind="hh", nh=nh, whos=["A"], keys=["a", "b", "c", "d"], maxdepth=5, maxtrue=4))
+        P.append(dict(base, W=1, D=2, H=2, ntables=1, kind="hh", nh=2, whos=["A"], keys=["a", "b", "c", "d"], maxdepth=6, maxtrue=4))
         for thr in (1, 2, 3):
-            P.append(dict(base, W=2, D=2, H=5, ntables=25, kind="st", thr=thr, whos=["A"], amts=[1, 2, 3], maxdepth=6, maxtrue=4))
-        P.append(dict(base, W=1, D=1, H=2, ntables=1, kind="st", thr=3, whos=["A"], amts=[1, 3], maxdepth=7, maxtrue=6))
+            P.append(dict(base, W=2, D=2, H=5, ntables=5, kind="st", thr=thr, whos=["A"], amts=[1, 3], maxdepth=5, maxtrue=4))
+        P.append(dict(base, W=1, D=1, H=2, ntables=1, kind="st", thr=3, whos=["A"], amts=[1, 3], maxdepth=6, maxtrue=5))
         for (W, D, H) in [(2, 2, 5), (1, 1, 2), (3, 2, 7)]:
-            P.append(dict({**base, **tiny}, W=W, D=D, H=H, ntables=20, maxdepth=4))
+            P.append(dict({**base, **tiny}, W=W, D=D, H=H, ntables=4, maxdepth=4, whos=["A"]))
+        P.append(dict({**base, **tiny}, W=2, D=1, H=3, ntables=8, maxdepth=3, amts=[2, 4]))
     solo2 = dict(base, whos=["A"], maxdepth=4 if tier == "quick" else 5, maxtrue=3, H=0, ntables=1)
     for i, st in enumerate(["fnv", "md5", "sha256", "deco_int", "handwritten"] if tier == "quick" else ["fnv", "md5", "sha256", "deco_int", "deco_bytes", "handwritten"]):
         W, D = [(2, 2), (3, 2), (5, 3)][i % 3]
